@@ -27,7 +27,7 @@ def step (s : OntState) (k : MutKind) (store' : Store) : OntState :=
   match k with
   | .set => if store' = s.store then s else { store := store', version := s.version + 1 }
   | .always => { store := store', version := s.version + 1 }
-  | .clear => { store := [], version := 0 }
+  | .clear => { store := store', version := 0 }
 
 def run (s : OntState) (ops : List (MutKind × Store)) : OntState :=
   ops.foldl (fun s op => step s op.1 op.2) s
